@@ -10,7 +10,10 @@ for f in sorted(glob.glob("/verif/seeded/*/meta.json")):
     files = re.findall(r"^\+\+\+ b/pyiron_workflow/(\S+)", d, re.M)
     ctx = re.findall(r"^@@ [^@]+ @@ (?:class |def |async def )?([A-Za-z_0-9]+)", d, re.M)
     site = ", ".join(dict.fromkeys(files)) + (" (" + ", ".join(dict.fromkeys(ctx))[:40] + ")" if ctx else "")
-    if m.get("caught"):
+    if m.get("obsolete"):
+        why = re.sub(r"\s+", " ", str(m["obsolete"])).replace("|", "/")[:110]
+        print(f"| {n} | {site} | (obsolete) | {why} |")
+    elif m.get("caught"):
         g = (m.get("caught_by") or [{}])[0]
         why = re.sub(r"\s+", " ", str(g.get("why", ""))).replace("|", "/")[:80]
         print(f"| {n} | {site} | {m['property']} | {why} |")
